@@ -42,7 +42,7 @@ func tableMaxN(L *LState) int {
 func tableRemove(L *LState) int {
 	tbl := L.CheckTable(1)
 	if L.GetTop() == 1 {
-		L.Push(tbl.Remove(-1))
+		L.Push(tbl.Remove(tbl.Len()))
 	} else {
 		L.Push(tbl.Remove(L.CheckInt(2)))
 	}
